@@ -109,19 +109,19 @@ fn plan_of(cfg: &Cfg) -> ChainPlan {
 
 fn configs(thorough: bool) -> Vec<Cfg> {
     let mut out: Vec<Cfg> = vec![];
-    let nmax = if thorough { 8 } else { 4 };
+    let nmax = if thorough { 8 } else { 5 };
     let mut k = 0usize;
     for n in 1..=nmax {
         for fam in 0..4u8 {
             if n == 1 && fam > 0 {
-                continue;
+                continue; // a single validator: all families coincide
             }
-            if n == 2 && fam == 3 {
-                // ramp (1,2) duplicates nothing, keep
-            }
-            let apps: Vec<u64> = if thorough { (1..=7).collect() } else { vec![(k as u64 % 7) + 1] };
-            for app in apps {
-                out.push(Cfg { n, fam, app, dah0: (3 * k) % DAHS.len() });
+            for app in 1..=7u64 {
+                // quick: one DAH cycle offset per chain (all 7 offsets occur); thorough: all 7
+                let offs: Vec<usize> = if thorough { (0..DAHS.len()).collect() } else { vec![(3 * k) % DAHS.len()] };
+                for dah0 in offs {
+                    out.push(Cfg { n, fam, app, dah0 });
+                }
                 k += 1;
             }
         }
@@ -890,7 +890,7 @@ fn main() {
         &ctx,
         rep,
         Spec {
-            rule: "chains: n validators (quick 1..4, thorough 1..8) x power family {equal, one above 2/3, one at exactly 2/3, ramp} x app version (quick: cycled 1..7, thorough: all 7), 3 heights each (height 1 all commit; height 2 one nil vote; height 3 one absent + one nil where the power allows), DAH per height cycling through synthetic widths 2/4/8/16 and real EDS widths 2/4/8. Per header: the unmutated header, and every mutation of: 16 hashed header fields (bit flips at 3 positions, None/empty, +-1, other value); every DAH row/column root (hash, min-ns, max-ns byte; removal; duplication; swap with next; row<->column exchange; append/truncate both); every validator (key, key+address, power +-1 in place and re-sorted, removal, swap, addition); commit block id hash/parts, height, round; every commit entry (signature bytes 0/31/32/63, signature dropped, signed by another key, timestamp +1ns/-1ms, address bit/other validator/stranger, flag commit<->nil, ->absent, absent->genuine vote, absent->made-up vote, removal, duplication, swap with next). distinct = (chain, height, family, index, variant); non-trivial = applicable mutations of parts named by the statement (no-ops skipped; validator address/proposer/total-power fields are observed only)",
+            rule: "chains: n validators (quick 1..5, thorough 1..8) x power family {equal, one above 2/3, one at exactly 2/3, ramp} x app version 1..7 x DAH cycle offset (quick: one per chain, thorough: all 7), 3 heights each (height 1 all commit; height 2 one nil vote; height 3 one absent + one nil where the power allows), DAH per height cycling through synthetic widths 2/4/8/16 and real EDS widths 2/4/8. Per header: the unmutated header, and every mutation of: 16 hashed header fields (bit flips at 3 positions, None/empty, +-1, other value); every DAH row/column root (hash, min-ns, max-ns byte; removal; duplication; swap with next; row<->column exchange; append/truncate both); every validator (key, key+address, power +-1 in place and re-sorted, removal, swap, addition); commit block id hash/parts, height, round; every commit entry (signature bytes 0/31/32/63, signature dropped, signed by another key, timestamp +1ns/-1ms, address bit/other validator/stranger, flag commit<->nil, ->absent, absent->genuine vote, absent->made-up vote, removal, duplication, swap with next). distinct = (chain, height, family, index, variant); non-trivial = applicable mutations of parts named by the statement (no-ops skipped; validator address/proposer/total-power fields are observed only)",
             assumptions: &[
                 "VERIF_SEED selects key material and hash payloads only",
                 "header times lie in 2024 (validate() does not read the clock)",
